@@ -763,9 +763,11 @@ package node
 //@ pure ancN(s *Selection, n int) *Selection = n <= 0 ? s : parentOrNil(ancN(s, n - 1))
 //@ pure wfSChain(s *Selection) bool = s == nil || (wfS(s) && solid(s.Path.Meta) && wfSChain(s.parent))
 //@ func (sel *Selection) makeCopy() (*Selection, error)
-//@   trusted
-//@   requires sel != nil
+//@   mode int
+//@   property C08
+//@   requires sel != nil && wfSChain(sel)
 //@   assigns nothing
+//@   decreases selLen(sel)
 //@   ensures (result0 != nil) == (result1 == nil)
 //@   ensures result0 != nil ==> fresh(result0) && result0.Node == sel.Node && result0.Path == sel.Path && result0.Browser == sel.Browser && result0.Constraints == sel.Constraints
 // the standard URL parser is only used to decode the query part; it touches nothing of ours
